@@ -48,8 +48,10 @@ class DataModelSpace(data_algebra.data_space.DataSpace):
         assert self.data_model.is_appropriate_data_instance(value)
         if not allow_overwrite:
             assert key not in self.data_map.keys()
+        # describe first: a table that can not be described is refused before the space changes
+        description = data_algebra.data_ops.describe_table(value, table_name=key)
         self.data_map[key] = value
-        return self.describe(key)
+        return description
 
     def remove(self, key: str) -> None:
         """
